@@ -110,6 +110,54 @@ theorem attach_recloses_surface (pts : Array (V3 K)) (point : Nat) (sil : Array 
     (h : attachAndPush pts point sil removed ts und = some (ts', und')) : Twin ts' :=
   attach_twin pts point sil removed ts und ts' und' hp h
 
+/-- non-vacuity: the two-sided triangle `(0,1,2)` / `(1,0,2)` after facet 0 has been removed by the silhouette search -/
+def exTs : Array (Facet Rat) :=
+  #[⟨false, false, V3.zero, ⟨1, 1, 1⟩, ⟨0, 2, 1⟩, ⟨0, 1, 2⟩, #[]⟩, ⟨true, false, V3.zero, ⟨0, 0, 0⟩, ⟨0, 2, 1⟩, ⟨1, 0, 2⟩, #[]⟩]
+def exSil : Array (Nat × Nat) := #[(1, 0), (1, 2), (1, 1)]
+
+private theorem exT0 : tAt exTs 0 = ⟨false, false, V3.zero, ⟨1, 1, 1⟩, ⟨0, 2, 1⟩, ⟨0, 1, 2⟩, #[]⟩ := rfl
+private theorem exT1 : tAt exTs 1 = ⟨true, false, V3.zero, ⟨0, 0, 0⟩, ⟨0, 2, 1⟩, ⟨1, 0, 2⟩, #[]⟩ := rfl
+
+private theorem exSz : exTs.size = 2 := rfl
+
+private theorem exSil_cases (i : Nat) (e : Nat × Nat) (h : exSil[i]? = some e) :
+    (i = 0 ∧ e = (1, 0)) ∨ (i = 1 ∧ e = (1, 2)) ∨ (i = 2 ∧ e = (1, 1)) := by
+  rcases i with _ | _ | _ | i
+  · left; simp [exSil] at h; exact ⟨rfl, h.symm⟩
+  · right; left; simp [exSil] at h; exact ⟨rfl, h.symm⟩
+  · right; right; simp [exSil] at h; exact ⟨rfl, h.symm⟩
+  · simp [exSil] at h
+
+/-- **non-vacuity** of `PreAttach` (hypothesis of `attach_recloses_surface`): facet 0 of the initial two-sided triangle removed,
+silhouette = the three half-edges of facet 1 in the order `compute_silhouette` emits them -/
+example : PreAttach exTs exSil := by
+  refine ⟨⟨fun i a j h => ?_, fun i i' e h h' => ?_⟩, fun i a j h => ?_, fun a ha hv j hj hn => ?_, fun i e e' h h' => ?_,
+    fun a ha hv j hj => ?_⟩
+  · rcases exSil_cases i _ h with ⟨_, he⟩ | ⟨_, he⟩ | ⟨_, he⟩ <;> (cases he; simp [exT1, exT0, T3.get, exSz])
+  · rcases exSil_cases i _ h with ⟨rfl, he⟩ | ⟨rfl, he⟩ | ⟨rfl, he⟩ <;>
+      rcases exSil_cases i' _ h' with ⟨rfl, he'⟩ | ⟨rfl, he'⟩ | ⟨rfl, he'⟩ <;> first | rfl | (rw [he] at he'; simp at he')
+  · rcases exSil_cases i _ h with ⟨_, he⟩ | ⟨_, he⟩ | ⟨_, he⟩ <;> (cases he; simp [exT1])
+  · have ha' : a = 0 ∨ a = 1 := by rw [exSz] at ha; omega
+    rcases ha' with rfl | rfl
+    · simp [exT0] at hv
+    · rcases lt3 hj with rfl | rfl | rfl
+      · exact ⟨0, rfl⟩
+      · exact ⟨2, rfl⟩
+      · exact ⟨1, rfl⟩
+  · have hsz : exSil.size = 3 := rfl
+    rw [hsz] at h'
+    rcases exSil_cases i _ h with ⟨rfl, he⟩ | ⟨rfl, he⟩ | ⟨rfl, he⟩ <;>
+      rcases exSil_cases _ _ h' with ⟨hi, he'⟩ | ⟨hi, he'⟩ | ⟨hi, he'⟩ <;> simp at hi <;>
+      (subst he; subst he'; simp [secondOf, firstOf, second, first, exT1, T3.get])
+  · have ha' : a = 0 ∨ a = 1 := by rw [exSz] at ha; omega
+    rcases ha' with rfl | rfl
+    · simp [exT0] at hv
+    · rcases lt3 hj with rfl | rfl | rfl <;> simp [exT1, exT0, T3.get, exSz]
+
+/-- **non-vacuity** of `Twin` (hypothesis of the step theorems): the initial two-sided triangle -/
+example : Twin (#[⟨true, false, V3.zero, ⟨1, 1, 1⟩, ⟨0, 2, 1⟩, ⟨0, 1, 2⟩, #[]⟩, ⟨true, false, V3.zero, ⟨0, 0, 0⟩, ⟨0, 2, 1⟩, ⟨1, 0, 2⟩, #[]⟩] : Array (Facet Rat)) :=
+  twin_initial _ _ 0 1 2 rfl rfl rfl rfl rfl rfl rfl rfl
+
 /-- **one main-loop pass keeps the surface closed and consistently oriented**, given a `ClosedLoop` silhouette. -/
 theorem step_recloses_surface (ts : Array (Facet K)) (pts : Array (V3 K)) (point i : Nat) (und : Array Nat)
     (ts' : Array (Facet K)) (und' : Array Nat) (hT : Twin ts) (hi : i < ts.size) (hv : (tAt ts i).valid = true)
